@@ -133,6 +133,11 @@ pub trait Scenario: Sync {
     fn cpu_limit_s(&self) -> u64 {
         20
     }
+    /// Worker processes worth using. Process and thread creation is serialised globally on this VM (measured:
+    /// 16 parallel forkers are 20x slower each), so light, creation-dominated scenarios run best with few workers.
+    fn jobs_hint(&self) -> usize {
+        4
+    }
     fn real_stub(&self) -> Value {
         json!({})
     }
@@ -498,7 +503,19 @@ pub fn seed_for(base: u64, i: u64) -> u64 {
     crate::prng::splitmix(&mut x)
 }
 
+/// Pin the calling process (and everything it forks) to one CPU: only one sim thread runs at a time anyway, and
+/// baton hand-overs between threads on one CPU avoid cross-CPU wake-ups and TLB shoot-downs (10x throughput here).
+pub fn pin_to_cpu(idx: usize) {
+    unsafe {
+        let ncpu = libc::sysconf(libc::_SC_NPROCESSORS_ONLN).max(1) as usize;
+        let mut set: libc::cpu_set_t = std::mem::zeroed();
+        libc::CPU_SET(idx % ncpu, &mut set);
+        libc::sched_setaffinity(0, std::mem::size_of::<libc::cpu_set_t>(), &set);
+    }
+}
+
 fn worker(scn: &dyn Scenario, o: &BatchOpts, widx: usize, nruns: u64, out: &Path, deadline: Instant) {
+    pin_to_cpu(widx);
     let shm = new_shm();
     let mut agg = Agg::default();
     let mut i = widx as u64;
@@ -511,7 +528,8 @@ fn worker(scn: &dyn Scenario, o: &BatchOpts, widx: usize, nruns: u64, out: &Path
         let spec = RunSpec { scenario: scn, seed, tier: o.tier, property: &o.property, workload: &w, replay: None, strict: false, trace: false, keep_sandbox: false };
         let (end, dec) = run_one(&spec, &shm);
         // determinism spot-check: the first runs of every worker are executed twice and must agree bit for bit
-        let det_check = i < 8 * o.jobs as u64 && i / (o.jobs as u64) < 1 || (i / o.jobs as u64) % 257 == 3;
+        let round = i / o.jobs as u64;
+        let det_check = round < 4 || round % 257 == 5;
         let lh = match &end {
             ChildEnd::Report(r) => Some((r.log_hash, r.violations.len())),
             _ => None,
